@@ -147,7 +147,7 @@ pub fn check_format_parse() -> Vec<Failure> {
         }
     }
     // TryFrom<char>: accepted exactly for the characters formatting produces
-    for cp in 0..0x3000u32 {
+    for cp in 0..0x110000u32 {
         let Some(c) = char::from_u32(cp) else { continue };
         if File::try_from(c).is_ok() != ('a'..='h').contains(&c) {
             bad("C19:file-try-from-char", format!("File::try_from({:?})", c));
@@ -210,7 +210,7 @@ fn arb_valid_text() -> impl Strategy<Value = String> {
 }
 
 fn arb_mutated_text() -> impl Strategy<Value = String> {
-    (arb_valid_text(), 0u8..10, any::<u16>(), prop_oneof![Just('k'), Just('p'), Just('K'), Just('Q'), Just('q'), Just(' '), Just('\u{e9}'), Just('\u{1F600}'), Just('x'), Just('1'), Just('a'), Just('\0'), Just('='), any::<char>()]).prop_map(|(t, kind, pos, c)| {
+    (arb_valid_text(), 0u8..10, any::<u16>(), prop_oneof![Just('k'), Just('p'), Just('K'), Just('Q'), Just('q'), Just(' '), Just('\u{e9}'), Just('\u{1F600}'), Just('x'), Just('1'), Just('a'), Just('\0'), Just('='), Just('\u{212A}'), Just('\u{17F}'), Just('\u{131}'), Just('\u{161}'), any::<char>()]).prop_map(|(t, kind, pos, c)| {
         let chars: Vec<char> = t.chars().collect();
         let i = (pos as usize * (chars.len() + 1)) >> 16;
         let mut out: Vec<char> = chars.clone();
@@ -254,7 +254,7 @@ fn arb_mutated_text() -> impl Strategy<Value = String> {
 
 pub fn run(ctx: &Ctx) -> Report {
     let mut rep = Report::new(ctx);
-    rep.rule = "Exhaustive: Square::try_offset for all 64 squares x 256 x 256 offset pairs against i32 arithmetic under catch_unwind (this binary's build profile; the check runs in the overflow-checked and the unchecked build); Square::offset panics exactly when try_offset is None for all offsets in -9..=9 squared plus extreme offsets; new/file/rank/flips/relative_to/index functions for all values; format-then-parse for all squares, files, ranks, pieces, colours and all 64x64x5 legally shaped moves; TryFrom<char> over U+0000..U+3000; all strings of length <= 5 over a 16-symbol alphabet (valid letters/digits, upper case, space, digit 0/9, a two-byte character) through all six FromStr impls. Generated: mutations of valid texts (append, truncate, case swap, insert/replace/delete, doubled tail, leading space, 'xyz' tail, k/p promotion letter), arbitrary Unicode strings. Oracle for strings: no panic; Ok(v) implies v.to_string() == s. Non-trivial = accepted string or mutation of a valid text; distinct by string hash / by construction for enumerations.".into();
+    rep.rule = "Exhaustive: Square::try_offset for all 64 squares x 256 x 256 offset pairs against i32 arithmetic under catch_unwind (this binary's build profile; the check runs in the overflow-checked and the unchecked build); Square::offset panics exactly when try_offset is None for all offsets in -9..=9 squared plus extreme offsets; new/file/rank/flips/relative_to/index functions for all values; format-then-parse for all squares, files, ranks, pieces, colours and all 64x64x5 legally shaped moves; TryFrom<char> over every Unicode scalar value; all strings of length <= 5 over a 16-symbol alphabet (valid letters/digits, upper case, space, digit 0/9, a two-byte character) through all six FromStr impls. Generated: mutations of valid texts (append, truncate, case swap, insert/replace/delete, doubled tail, leading space, 'xyz' tail, k/p promotion letter), arbitrary Unicode strings. Oracle for strings: no panic; Ok(v) implies v.to_string() == s. Non-trivial = accepted string or mutation of a valid text; distinct by string hash / by construction for enumerations.".into();
     rep.assumptions = vec!["string space beyond length 5 / the small alphabet is sampled".into()];
     rep.exhaustive = Some(true);
     rep.exhaustive_note = Some("try_offset over its whole domain in this build profile; all enum values; all short strings over the 16-symbol alphabet".into());
@@ -287,7 +287,7 @@ pub fn run(ctx: &Ctx) -> Report {
         fails
     }));
     let mut tables = PartResult::empty();
-    tables.stats.eval(64 * 5 + 8 * 6 + 64 * 64 * 5 + 0x3000 * 4);
+    tables.stats.eval(64 * 5 + 8 * 6 + 64 * 64 * 5 + 0x110000 * 4);
     tables.stats.nontrivial_enumerated += 64 * 64 * 5;
     tables.failures.extend(check_coordinates());
     tables.failures.extend(check_format_parse());
